@@ -81,6 +81,35 @@ func runC14(c *ctx) {
 			c.emit(obj{"op": "expand", "ns": cfg[0], "dom": cfg[1], "host": out, "obs": obj{"out": out2}})
 		}
 	}
+	// 1b. the same through configurations built from the ENVIRONMENT (the namespace used for expansion is the metadata's
+	// NAMESPACE entry when there is one, else the pod's; the domain comes from KITEX_XDS_DOMAIN)
+	for _, e := range []struct{ podNs, metaNs, dom string }{{"default", "", ""}, {"default", "team-b", ""}, {"pod-ns", "meta-ns", "k8s.example.org"}, {"default", "default", "cluster.local"}} {
+		env := map[string]string{"POD_NAMESPACE": e.podNs, "POD_NAME": "pod-a", "INSTANCE_IP": "10.0.0.1"}
+		wantNs, wantDom := e.podNs, "cluster.local"
+		if e.metaNs != "" {
+			env["KITEX_XDS_METAS"] = `{"NAMESPACE":"` + e.metaNs + `","CLUSTER_ID":"K"}`
+			wantNs = e.metaNs
+		}
+		if e.dom != "" {
+			env["KITEX_XDS_DOMAIN"] = e.dom
+			wantDom = e.dom
+		}
+		setEnv(env)
+		bc, err := manager.NewBootstrapConfigFromEnv(&manager.XDSServerConfig{})
+		if err != nil {
+			fmt.Println("C14: bootstrap from env:", err)
+			continue
+		}
+		hosts := []string{"echo", "echo.team-a", "echo.x.svc", "a.b.c.d", "echo.default.svc.cluster.local", "Echo", ""}
+		for i := 0; i < 40*c.budget; i++ {
+			hosts = append(hosts, genHost(r, 5))
+		}
+		for _, h := range hosts {
+			c.count("expand.env", 1)
+			c.emit(obj{"op": "expand", "ns": wantNs, "dom": wantDom, "host": h, "obs": obj{"out": bc.VerifExpand(h)}})
+		}
+	}
+	setEnv(map[string]string{})
 	// 2. binding through the real client: NDS push, then getListenerName / resolveAddr
 	worlds := 6 * c.budget
 	for wi := 0; wi < worlds; wi++ {
@@ -130,7 +159,13 @@ func runC14(c *ctx) {
 					addKey(strings.ToUpper(h[:1])+h[1:], []string{ip})
 				}
 			}
-			if !w.push(mkResp(xdsresource.NameTableTypeURL, fmt.Sprintf("t%d", ti), fmt.Sprintf("tn%d", ti), []*anypb.Any{anyNameTable(tbl)})) {
+			// the version string is the control plane's business: a restarted instance re-uses "t0" for a different table
+			tv := fmt.Sprintf("t%d", ti)
+			if ti > 0 && r.chance(35) {
+				tv = fmt.Sprintf("t%d", ti-1)
+				c.count("table-version-reused", 1)
+			}
+			if !w.push(mkResp(xdsresource.NameTableTypeURL, tv, fmt.Sprintf("tn%d", ti), []*anypb.Any{anyNameTable(tbl)})) {
 				c.emit(obj{"op": "hang", "obs": obj{}})
 				break
 			}
